@@ -6,26 +6,26 @@ TB = ("Trusted: Lean 4.33 kernel; axioms propext/Classical.choice/Quot.sound onl
       "(lean/Clover/Model) is tied to /repo by the differential correspondence run of the same check (Go harness + Lean driver); "
       "bbolt, badger, msgpack, encoding/json, regexp, orderedcode, reflect are modelled or parameters, not verified.")
 P = {
- "C01": ("proof", 'Lean theorems on the executable model: refine_step / refine_history (every operation kind refines the abstract specification call by call after any history, for queries served by a full scan - in particular all collections without indexes), findAll_exact (ANY index set and plan on the key domain: a permutation of filter(sat) over the live documents), findAll_returns_nothing_else (any plan, no domain hypothesis). Tie: three-way differential of random histories on the real DB (bbolt, badger), the model and the specification. Run time only: order of sorted/windowed answers served from an index (tie classes), values outside the key domain.', 'Lean refinement proof (model refines index-free specification) + differential histories'),
- "C02": ("proof", "Lean: planner_sound, index_block_shape (a store representing an abstract state has the block shape the scan theorems need), index_candidates_complete, findAll_index_transparent and count_index_transparent (whatever the index set and the plan chosen, FindAll returns a permutation of / Count returns the index-free specification's answer, on the key domain), bulk_write_any_plan. Tie: systematic cells (leaf form x operand kind x wrapper x sort) and random twin collections differing only in their indexes on the real DB, compared with the index-free spec and pairwise. Run time only: sort elision order, bulk-write selections through index plans.", 'Lean proof of index transparency on the model; twin-collection correspondence'),
- "C03": ("proof", 'Lean: apply_phase_exact (for every updater, size and index set, any selection of live documents is rewritten exactly once each on its pre-call value, nothing else touched), update_exact / delete_exact (refinement for full-scan plans), selection_is_live_any_plan, dropCollection_removes_all. Tie: bulk histories on collections of size 0..1100 quick / 5000 thorough on both backends incl. rewrites that take documents out of their own selection; updater invocations and raw key dumps vs the model.', 'Lean refinement proof of the bulk apply phase; differential bulk histories with raw key dumps'),
+ 'C01': ('proof', 'Lean theorems on the executable model: refine_step / refine_history (every operation kind refines the abstract specification call by call after any history, for queries served by a full scan - in particular all collections without indexes), refine_history_under_faults (the same in lockstep under ANY fault schedule), findAll_exact (ANY index set and plan on the key domain: a permutation of filter(sat) over the live documents), findAll_returns_nothing_else (any plan, no domain hypothesis), spec_keeps_wellformed. Tie: three-way differential of random histories on the real DB (bbolt, badger), the model and the specification; regenerated fingerprints of the decision functions. Run time only: order of sorted/windowed answers served from an index (tie classes), values outside the key domain.', 'Lean refinement proof (model refines index-free specification) + differential histories'),
+ 'C02': ('proof', "Lean: planner_sound, index_block_shape, index_candidates_complete, findAll_index_transparent and count_index_transparent (whatever the index set and the plan chosen, FindAll returns a permutation of / Count returns the index-free specification's answer, on the key domain), update_index_transparent / delete_index_transparent (the state after a bulk write through ANY plan is the specification's), bulk_write_any_plan, source_decision_logic (regenerated text of tryToSelectIndex/getIndexQueries = the text the model was written from). Tie: systematic cells (leaf form x operand kind x wrapper x sort) and random twin collections differing only in their indexes on the real DB, compared with the index-free spec and pairwise. Run time only: sort elision order, windowed bulk-write selections through index plans.", 'Lean proof of index transparency on the model; twin-collection correspondence'),
+ 'C03': ('proof', 'Lean: apply_phase_exact (for every updater, size and index set, any selection of live documents is rewritten exactly once each on its pre-call value, nothing else touched), update_exact / delete_exact (full-scan plans; any plan on the key domain via C02), bulk_write_order_independent, each_selected_document_rewritten_once, selection_is_live_any_plan, dropCollection_removes_all. Tie: bulk histories on collections of size 0..1100 on both backends incl. rewrites that take documents out of their own selection, updater invocations and raw key dumps vs the model; an implementation-only oracle at 2100/5000 documents; a cursor monitor flags a mutation under an open cursor.', 'Lean refinement proof of the bulk apply phase; differential bulk histories with raw key dumps'),
  "C04": ("proof", "Lean: failed_op_no_trace and fault_reported for every operation, state and fault schedule; run_unfired (a run in which no fault fired is the fault-free run); sentinel errors equal the specification's (refine_step). Tie: fault enumeration over every store call of every operation kind (incl. import/export) on the real DB: outcome, raw dump, follow-up write and store-call trace vs the model; after a broken correspondence the search continues with the property's own oracle.", 'Lean theorem over all fault schedules; fault-enumeration correspondence'),
  "C06": ("proof", 'Lean: inv_step (every operation in the supported domain, every handle state, EVERY fault schedule preserves the representation invariant) and inv_reachable (every history from the empty database), index_entries_exact, size_is_number_of_documents, documents_exact, no_residue_of_missing_collection. Tie: raw key dumps of the real DB vs the model after every operation, the Lean-evaluated inv flag, and a direct invariant oracle on the real store.', 'Lean representation invariant proved by induction over histories; raw key dump correspondence'),
- "C08": ("proof", "run_window theorem (skip/limit node = drop/take); sorted answers of the real DB checked position by position against the tie classes of the Lean spec's ordered sequence.", "Lean proof of window law; class-sequence correspondence"),
+ 'C08': ('proof', "Lean: window_exact / window_length (skip/limit node = drop/take), compareDocuments_total_preorder, sort_node_sorts, findAll_is_sorted (any plan keeping the sort node), findAll_in_index_order (elided sort), window_of_sorted_is_sorted, builder semantics (negative skip ignored, negative limit unlimited, default sort by _id, direction normalised), source_decision_logic (regenerated text of the plan builder). Tie: sorted/windowed answers of the real DB checked position by position against the tie classes of the specification's ordered sequence, with and without an index on the sort key, windows up to 5000.", 'Lean proofs of sort and window laws on the plan model; class-sequence correspondence'),
  "C09": ("proof", 'Lean: count_is_length, exists_iff_nonempty, findFirst_is_head, forEach_is_prefix (incl. a consumer stopping after n documents) for full-scan plans, count_is_length_any_plan (any plan, key domain), findById_iff_live, reads_do_not_alter_db (any fault schedule). Tie: derived reads compared with FindAll on the real DB (self-relative) and with model/spec after every write.', 'Lean refinement proofs of the derived reads; self-relative differential'),
  "C10": ("proof", "c10_preorder and c10_key_order proved in Lean for all values (unbounded nesting): total preorder by exact value; index key bytes followed by any ids sort exactly as the values on the key domain. Correspondence: Compare and OrderedCode of the real code vs the Lean definitions on all pairs of a boundary-rich pool.", "Lean proof by mutual induction; byte-exact key correspondence"),
  "C12": ("proof", 'Lean: insert_exact (Insert refines the specification: duplicate / malformed ids at any batch position rejected with nothing changed, supplied ids kept, fresh ids assigned), updateById_exact (any updater; ReplaceById, Save), findById_returns_own_id, valid_id_wellformed, key_determines_id. Tie: histories of inserts with generated/supplied (several valid spellings)/duplicate/malformed ids, saves, replacements and _id-rewriting updates vs model and spec.', 'Lean refinement proofs of the id-handling operations; differential histories'),
- "C13": ("proof", "Lean: createCollection_exact, dropCollection_exact, listCollections_exact (each refines the specification's catalog), collection_frame, bulk_write_frame, key-space lemmas for ';'-free names incl. prefix-related and unicode ones. Tie: catalog histories vs model/spec with raw dumps.", 'Lean refinement proofs of the catalog operations + key-space lemmas; differential histories'),
+ 'C13': ('proof', "Lean: createCollection_exact, dropCollection_exact, listCollections_exact (each refines the specification's catalog), collection_frame, bulk_write_frame, step_changes_only_its_collection, operations_on_other_collections_do_not_interfere, key-space lemmas for ';'-free names incl. prefix-related and unicode ones, source_key_layout (regenerated key prefixes/separators = the model's). Tie: catalog histories vs model/spec with raw dumps.", 'Lean refinement proofs of the catalog operations + key-space lemmas; differential histories'),
  "C14": ("proof", 'Lean: createIndex_exact, dropIndex_exact (at any point of a history; entries of other indexes untouched incl. x/xy and n/n.a), hasIndex_exact, listIndexes_exact, index_prefix_selects_own_entries. Tie: index create/drop histories vs model/spec with raw dumps.', 'Lean refinement proofs of the index catalog operations + key-space lemmas; differential histories'),
- "C05": ("proof", "Facts regenerated from the source (every transaction-opening function begins exactly one transaction, defers Rollback, commits at most once; bbolt opened with nil options) decided in Lean; model theorem: the committed state is only replaced by a completed body whose commit succeeded. Close/reopen after every write and SIGKILL of a child process at random instants (bbolt, badger on disk): the reopened store must be the model's state after j or j+1 operations and pass the invariant oracle. Partial: power loss and backend-internal recovery are outside the theorem.", "Lean protocol theorem + regenerated transaction-shape facts; kill/reopen correspondence"),
+ 'C05': ('proof', "Lean: crash_atomic (a crash after any number of store calls of an operation leaves the pre-state or the post-state), acknowledged_survive / returned_survives, recovered_state_is_consistent, reopen_is_identity, commit_is_the_only_publication - under the named assumption that the store's commit is atomic and durable; facts regenerated from the source (every transaction-opening function begins exactly one transaction, defers Rollback, commits at most once; bbolt opened with nil options) decided in Lean. Tie: close/reopen after every write, abandoned handles and SIGKILL of a child process at random instants (bbolt, badger on disk), faults before the cut: the reopened store must be the model's state after j or j+1 operations and pass the invariant oracle. Partial: power loss and backend-internal recovery are outside the theorem.", 'Lean crash/recovery theorems over the transaction model + regenerated transaction-shape facts; kill/reopen correspondence'),
  "C07": ("proof", "Linearizability of the lock/snapshot protocol proved in Lean for any number of threads and operations (instantiated with the model's operations); regenerated facts: no shared mutable state in the handle, no mutable globals, no builder writes through its receiver. Race-detector build running tagged batches / bulk updates / counters from 2-8 goroutines with perturbed scheduling. Partial: Go scheduler/memory model and badger's conflict detection are outside the theorem.", "Lean linearizability theorem + regenerated structural facts; -race concurrent workload"),
  "C11": ("proof", "decode_encode proved in Lean for every document at any nesting depth (time wrapping/unwrapping recursive over maps and slices); msgpack/gob abstracted as a faithful serialiser, validated by round trips of the full value grammar through Insert/Save/Update and FindById/FindAll before and after reopen on three backends.", "Lean proof by mutual structural induction; round-trip correspondence"),
  "C15": ("proof", "Cursor contract proved in Lean over the sorted store (forward seek = entries >= target in order, reverse seek = entries <= target descending, values irrelevant, store determined by its lookups); adapter conformance on random key sets x targets x directions on bbolt, badger-mem, badger-disk; identical histories on all three backends compared pairwise. Partial: that each adapter meets the contract is correspondence, not proof.", "Lean cursor-contract theorems; adapter conformance + cross-backend differential"),
- "C16": ("proof", "Boolean algebra of Satisfy, Neq/NotExists as negations, In/Contains/Exists characterisations and field-reference dereferencing proved in Lean on the model's sat; Satisfy of the real code vs the model on thousands of (criteria, document) pairs, Boolean laws and Go-numeric-kind invariance checked on the implementation.", "Lean proofs on the criteria model; differential Satisfy"),
+ 'C16': ('proof', "Boolean algebra of Satisfy, Neq/NotExists as negations, In/Contains/Exists characterisations, field-reference dereferencing and literal_kind_invariance (criteria differing only in the Go kind of numerically equal literals are satisfied by the same documents) proved in Lean on the model's sat; Satisfy of the real code vs the model on thousands of (criteria, document) pairs, Boolean/list laws and kind invariance checked on the implementation, also through the DB with and without an index.", 'Lean proofs on the criteria model; differential Satisfy'),
  "C17": ("proof", "range_scan_exact proved in Lean for the model's IterateRange (byte-level cursor steps over any store around the index, both directions, any index content in the key domain): exactly the in-range entries in (value,id) order; full iteration; Intersect sound for all ranges; IsEmpty sound on the domain. IterateRange/Iterate of the real index package on both backends vs the model and vs a direct oracle, with early stops.", "Lean proof (scan = filter on sorted entries, bytes<->values bridge); differential range scans"),
  "C20": ("proof", "Model operations are total functions returning results or errors; regenerated list of panic-capable source sites (unchecked type assertions, explicit panics) equals the reviewed list (Lean decide); every public call of every stream runs under recover() with a deadline, incl. negated criteria x indexes x missing things x closed handle x three backends and direct document/index API calls. Partial: non-syntactic runtime panics and blocking inside backends are outside the theorem.", "Lean totality + regenerated panic-site facts; recover()-guarded differential"),
- "C18": ("proof", "Lean model of Normalize on Go values as reflect sees them (every width one constructor, pointers, slices/arrays, maps, structs with clover tags incl. omitempty/embedded/unexported, unsupported kinds): widths canonical, pointers followed (also to times), idempotence on object-free values, struct tag lemmas, unsupported values leave the document unchanged; dotted-path laws get_set_same / get_set_other proved on the model's Set/Get/Has. Go values built by reflection normalised by the real code vs the model; struct round trips. reflect and encoding/json are abstracted.", "Lean model of normalisation + path-law proofs; reflection-built differential"),
- "C19": ("proof", "Lean model of JSON typing (numbers -> float64 exact within 2^53, times -> RFC 3339 text) wired into the model's Export/Import; theorems: field sets and _id preserved, export is pure, every failing import changes nothing, unreadable / existing-name imports fail. Export files parsed by an independent JSON reader, imported under a new name and compared with model and spec incl. raw dumps; eight failure paths. encoding/json is abstracted (validated by the stream).", "Lean JSON-typing model + atomic import theorems; export/import differential"),
+ 'C18': ('proof', "Lean model of Normalize on Go values as reflect sees them (every width one constructor, pointers, slices/arrays, maps, structs with clover tags incl. omitempty/embedded/unexported, unsupported kinds) and of Unmarshal's key renaming: widths canonical, pointers followed (also to times), go_kinds_normalise_to_the_same_number, struct tag lemmas, unsupported values leave the document unchanged at any depth, unmarshal_renames_every_field / _nested / _along_paths; dotted-path laws get_set_same / get_set_other. Go values built by reflection normalised by the real code vs the model; renameMapKeys of the real code (hook) vs the model and struct round trips. reflect and encoding/json are abstracted.", 'Lean model of normalisation and renaming + path-law proofs; reflection-built differential'),
+ 'C19': ('proof', "Lean model of JSON typing (numbers -> float64 exact within 2^53, times -> RFC 3339 text, _expiresAt restored by the RFC 3339 parser: parse_print) wired into the model's Export/Import; theorems: export_import_roundtrip (same ids, same count, documents equal up to JSON typing, FindAll equal), export is pure, every failing import changes nothing, unreadable / existing-name imports fail. Export files parsed by an independent JSON reader, imported under a new name and compared with model and spec incl. raw dumps; eight failure paths. encoding/json is abstracted (validated by the stream).", 'Lean round-trip theorem over the JSON-typing model + atomic import theorems; export/import differential'),
 }
 NOT_YET = {
  "C05": "check not built yet in this session (crash/reopen harness pending)",
